@@ -123,6 +123,27 @@ def generate(rng, tier):
             pad = rng.choice([1, 16, 64])
             cont, table = rbytes(rng, pad) + mb, [(0, len(b), pad)]
         cases.append(mk("t%d" % i, cont, "file" if i % 3 else "str", 1 if i % 4 == 0 else 0, True, xlat=table))
+    # note headers whose name / descriptor sizes make the walker's 32-bit advance (12 + padded sizes) wrap: to zero
+    # (it would never move), to a small value, to just below the section size
+    import struct as _st
+    nn = 0
+    for im, b in bs:
+        if nn >= (48 if tier == "quick" else 480):
+            break
+        e = "<" if im.enc == "lsb" else ">"
+        for k, s_ in enumerate(im.sections):
+            if s_["type"] != 7 or s_["data"] is None or s_["size"] < 12:
+                continue
+            for (ns, ds) in [(0xFFFFFFF4, 0), (0x7FFFFFFC, 0x7FFFFFF8), (0xFFFFFFF0, 4), (0xFFFFFFF8, 0xFFFFFFFC),
+                             (0xFFFFFFF4 - 4 * rng.randint(1, 5), 4 * rng.randint(0, 5)), (0, 0xFFFFFFF4), (0xFFFFFFF5, 0),
+                             (0x80000000, 0x7FFFFFF4), (s_["size"] - 12, 0xFFFFFFFC), (0xFFFFFFFC, s_["size"] - 12)]:
+                mb = bytearray(b)
+                at = s_["offset"] + rng.choice([0, 0, 0] + [o for o in range(0, max(s_["size"] - 12, 1), 4)][:6])
+                if at + 8 > len(mb):
+                    continue
+                mb[at:at + 8] = _st.pack(e + "II", ns % 2**32, ds % 2**32)
+                cases.append(mk("n%d" % nn, bytes(mb), "str" if nn % 2 == 0 else "file", (nn // 2) % 2, True))
+                nn += 1
     # offset + size wrapping around the field width: size = 2^w - offset + d for every section / segment
     # (a bounds check written as "offset + size > stream_size" passes such values)
     import struct
@@ -174,10 +195,16 @@ def generate(rng, tier):
     return cases
 
 
+def _dist_extra(d, cases):
+    d["translated_loads"] = sum(1 for c in cases if c.id.startswith("t"))
+    d["note_size_wraps"] = sum(1 for c in cases if c.id.startswith("n"))
+    return d
+
+
 def distribution(cases):
     d = {"mutated": 0, "archived_crashers": 0, "random_bytes": 0, "unmutated": 0, "lazy": 0, "file_streams": 0}
     for c in cases:
         d["mutated"] += c.id.startswith("m"); d["archived_crashers"] += c.id.startswith("c")
         d["random_bytes"] += c.id.startswith("r"); d["unmutated"] += c.id.startswith("b")
         d["lazy"] += " 1 " in c.lines[1][:12]; d["file_streams"] += c.lines[1].startswith("load file")
-    return d
+    return _dist_extra(d, cases)
